@@ -1297,6 +1297,27 @@ def repeated_generic_specs(draw, mods=2):
         shape = draw(st.sampled_from(["class", "list", "dict"]))
         return child if shape == "class" else ({"k": "list", "sp": "list", "a": [child]} if shape == "list" else
                                                {"k": "dict", "sp": "dict", "a": [S("str"), child]})
+    if draw(st.integers(0, 5)) == 0:
+        # a NewType / alias of a structured class (which has a structured member of its own) used as a member at two depths:
+        # directly in the root class (bare or wrapped) and in a class nested one level down
+        la, lb = draw(leaf), draw(leaf)
+        flv = st.sampled_from(["dataclass", "namedtuple", "plain", "dc_frozen"])
+        fut = draw(st.booleans())
+        inner = {"k": "class", "name": names.fresh("Leaf"), "mod": draw(st.integers(0, mods - 1)), "flavour": draw(flv), "future": fut,
+                 "fields": [{"n": "v", "t": la}]}
+        item = {"k": "class", "name": names.fresh("Item"), "mod": draw(st.integers(0, mods - 1)), "flavour": draw(flv), "future": fut,
+                "fields": [{"n": "x", "t": lb}, {"n": "leaf", "t": inner}]}
+        wk = draw(st.sampled_from(["newtype", "alias"]))
+        w = {"k": wk, "name": names.fresh("NT" if wk == "newtype" else "AL"), "mod": draw(st.integers(0, mods - 1)), "a": [item]}
+        again = {"k": wk, "name": w["name"], "mod": w["mod"], "a": [{"k": "ref", "name": item["name"], "mod": item["mod"]}]}
+        holder = {"k": "class", "name": names.fresh("Wrap"), "mod": draw(st.integers(0, mods - 1)), "flavour": draw(flv), "future": fut,
+                  "fields": [{"n": "item", "t": again}]}
+        first = w if draw(st.booleans()) else item
+        if first is item:
+            holder["fields"][0]["t"] = {"k": wk, "name": w["name"], "mod": w["mod"], "a": [{"k": "ref", "name": item["name"], "mod": item["mod"]}]}
+        fields = [{"n": "first", "t": first}, {"n": "w", "t": holder}]
+        root = {"k": "class", "name": names.fresh("Root"), "mod": draw(st.integers(0, mods - 1)), "flavour": draw(flv), "future": fut, "fields": fields}
+        return root if draw(st.booleans()) else {"k": "list", "sp": "list", "a": [root]}
     kind = draw(st.sampled_from(["tuple", "list", "dict", "vtuple", "optional-list", "set"]))
     if kind == "tuple":
         g = {"k": "tuple", "sp": "tuple", "a": [draw(leaf) for _ in range(draw(st.integers(1, 3)))]}
